@@ -65,6 +65,7 @@ type framePlan struct {
 	mergeTwice bool // consumers decode the frame and then merge-decode it again onto the result
 	prebuilt  proto.Message // pulsar producer: message built at plan time with a tape-drawn history
 	roOps     []int         // read-only calls the producer makes on its message before Marshal
+	staleSel  int           // >0: the producer clears a populated map/list field and then reads through views obtained before
 }
 
 type sentFrame struct {
@@ -371,6 +372,63 @@ func decodeFrame(buf []byte, msg proto.Message, p *framePlan) (err error) {
 	return err
 }
 
+// staleViewReads: the owner of a message takes the list and map views of its
+// fields, clears one populated field (a legitimate mutation by the owner) and
+// then reads through the views it obtained before. Those reads must not write.
+func staleViewReads(m proto.Message, sel int) (diff string) {
+	defer func() {
+		if r := recover(); r != nil {
+			diff = "" // a panicking read is another property's business
+		}
+	}()
+	r := m.ProtoReflect()
+	type view struct {
+		fd protoreflect.FieldDescriptor
+		l  protoreflect.List
+		mp protoreflect.Map
+	}
+	var views []view
+	var populated []protoreflect.FieldDescriptor
+	fds := r.Descriptor().Fields()
+	for i := 0; i < fds.Len(); i++ {
+		fd := fds.Get(i)
+		switch {
+		case fd.IsMap():
+			views = append(views, view{fd: fd, mp: r.Get(fd).Map()})
+		case fd.IsList():
+			views = append(views, view{fd: fd, l: r.Get(fd).List()})
+		default:
+			continue
+		}
+		if r.Has(fd) {
+			populated = append(populated, fd)
+		}
+	}
+	if len(populated) == 0 {
+		return ""
+	}
+	r.Clear(populated[sel%len(populated)])
+	before := simval.TakeSnapshot(m)
+	for _, v := range views {
+		if v.mp != nil {
+			v.mp.Len()
+			v.mp.IsValid()
+			v.mp.Range(func(k protoreflect.MapKey, _ protoreflect.Value) bool { v.mp.Has(k); v.mp.Get(k); return true })
+		} else {
+			n := v.l.Len()
+			v.l.IsValid()
+			if n > 0 {
+				v.l.Get(0)
+			}
+		}
+	}
+	after := simval.TakeSnapshot(m)
+	if before.Hash != after.Hash {
+		return fmt.Sprint(before.Diff(after))
+	}
+	return ""
+}
+
 // safeHandlerOp: a read-only call that panics on an odd message shape (for
 // instance a nil message map value left by a key-only map entry) is another
 // property's business; here it only must not write.
@@ -403,7 +461,7 @@ func runPipeline(c *simrun.Ctx) *simrun.Violation {
 			fp.av = simval.Gen(t, md, cfg)
 			fp.foreign = t.Chance("foreign", 1, 3)
 			if fp.foreign {
-				fp.wire = (&simval.EncodeOpts{T: t, Shuffle: true, Unknowns: true, Redundant: t.Chance("redundant", 1, 2), DupMapKeys: t.Chance("dupkeys", 1, 2), KeyOnlyEntries: t.Chance("keyonly", 1, 3)}).Encode(fp.av)
+				fp.wire = (&simval.EncodeOpts{T: t, Shuffle: true, Unknowns: true, Redundant: t.Chance("redundant", 1, 2), NonCanonical: t.Chance("noncanonical", 1, 2), DupMapKeys: t.Chance("dupkeys", 1, 2), KeyOnlyEntries: t.Chance("keyonly", 1, 3)}).Encode(fp.av)
 			} else {
 				// the producer's message is built here, with a tape-drawn history
 				// (struct literal with empty non-nil containers and spare capacity,
@@ -423,6 +481,9 @@ func runPipeline(c *simrun.Ctx) *simrun.Violation {
 				}
 				for k, n := 0, t.Draw("roops", 4); k < n; k++ {
 					fp.roOps = append(fp.roOps, 1+t.Draw("roop", numHandlerOps-1))
+				}
+				if t.Chance("stale-views", 1, 4) {
+					fp.staleSel = 1 + t.Draw("stale-sel", 8)
 				}
 			}
 			fp.mergeTwice = t.Chance("merge-twice", 1, 5)
@@ -543,7 +604,13 @@ func runPipeline(c *simrun.Ctx) *simrun.Violation {
 					reuseObj = fp.reuse >= 2
 					// read-only calls before encoding must leave the struct alone
 					for _, op := range fp.roOps {
-						before := simval.TakeSnapshot(m)
+						if fp.staleSel > 0 {
+						if d := staleViewReads(m, fp.staleSel); d != "" {
+							lg.errf("C07:read-only-call-changed-the-message-struct|reads through map/list views obtained before the owner cleared the field, frame %d (type %s): %s", fp.id, mt.Descriptor().FullName(), d)
+						}
+						simhook.Yield(-2)
+					}
+					before := simval.TakeSnapshot(m)
 						safeHandlerOp(m, op)
 						after := simval.TakeSnapshot(m)
 						if before.Hash != after.Hash {
